@@ -123,7 +123,7 @@ def generate(seed, tier, cfg):
                 continue
             kind = f.choice(("F1", "F2", "F2", "F3", "F4", "F4")) if ops[oi]["k"] == "save" else f.choice(("F5", "F6"))
             err = {"F1": f.choice((28, 13)), "F2": f.choice((28, 5)), "F3": 28, "F4": 0, "F5": f.choice((2, 13)), "F6": 5}[kind]
-            faults.append({"kind": kind, "path": "*", "at": f.choice((0, 0, 1, 2, 3)) if kind in ("F2", "F4", "F6") else 0, "errno": err, "op_index": oi})
+            faults.append({"kind": kind, "path": "*", "at": f.choice((0, 0, 1, 2, 3)) if kind in ("F2", "F4", "F6") else 0, "errno": err, "op_index": oi, "frac": (round(f.random(), 3) if kind in ("F2", "F4", "F6") and f.random() < 0.5 else None)})
     if k.random() < 0.4:
         ops.append({"k": "regen", "ppq": k.choice((480, 960, 100, 96, 384)), "mpq": k.choice((500000, 600000, 454545, 750000))})
     return {"mode": "roundtrip", "workload": asc, "perf_seed": st.workload.randrange(1 << 30), "ops": ops, "faults": faults, "knobs": {"ppq": k.choice((480, 480, 960, 100, 96)), "mpq": k.choice((500000, 500000, 600000, 454545)), "chunk": k.choice((0, 0, 7, 64, 1))}}
@@ -392,6 +392,7 @@ def execute(case, keep_log=False):
         snap0 = s1
     ref_bytes = ref_text.encode("utf-8")
     fs = SimFS(chunk=kn["chunk"])
+    fs.expect_transfer(len(ref_bytes))
     path = "/simfs/a.match"
     content = {}
     disturbed = None
@@ -403,7 +404,7 @@ def execute(case, keep_log=False):
     with fs:
         g0 = G.fingerprint()
         for i, op in enumerate(case["ops"]):
-            fs.faults = [Fault(f["kind"], f["path"], f["at"], f["errno"]) for f in fault_by_op.get(i, [])]
+            fs.faults = [Fault(f["kind"], f["path"], f["at"], f["errno"], frac=f.get("frac")) for f in fault_by_op.get(i, [])]
             fs.inflight_points = []
             fired_before = dict(fs.fired)
             outcome = None
